@@ -12,16 +12,19 @@ pub fn input_contract(c: &mut Compressor, data: &GenericArray<u8, U64>) {
     *c = Compressor::new(o);
 }
 macro_rules! accessors {
-    ($T:ident, $f:ident, $set:ident) => {
-        pub fn $f(h: &mut $T) -> (&mut usize, [u8; 128], usize) {
+    ($T:ident, $f:ident, $set:ident, $setd:ident) => {
+        // the counter is read and written through `as` conversions so that the hook compiles whatever integer
+        // type the field has (a narrowed counter must fail a contract, not the build)
+        pub fn $f(h: &mut $T) -> (u128, [u8; 128], usize) {
             let cv = h.state.finalize();
             let pos = h.buffer.position();
-            (&mut h.datalen, cv, pos)
+            (h.datalen as u128, cv, pos)
         }
+        pub fn $setd(h: &mut $T, n: u128) { h.datalen = n as _; }
         pub fn $set(h: &mut $T, cv: &[u8; 128]) { h.state = Compressor::new(*cv); }
     };
 }
-accessors!(Jh224, j224, j224_set_cv);
-accessors!(Jh256, j256, j256_set_cv);
-accessors!(Jh384, j384, j384_set_cv);
-accessors!(Jh512, j512, j512_set_cv);
+accessors!(Jh224, j224, j224_set_cv, j224_set_datalen);
+accessors!(Jh256, j256, j256_set_cv, j256_set_datalen);
+accessors!(Jh384, j384, j384_set_cv, j384_set_datalen);
+accessors!(Jh512, j512, j512_set_cv, j512_set_datalen);
